@@ -1,0 +1,324 @@
+//! Verification hooks. Only compiled with the cargo feature `verif`; nothing in here is
+//! reachable from a normal build. All state is thread-local, so the hooks do not
+//! introduce any cross-thread state of their own.
+use crate::object::Object;
+use std::alloc::Layout;
+use std::cell::{Cell, RefCell};
+use std::collections::HashMap;
+
+pub use crate::gc::GC;
+
+/// Message of the error returned when the instruction budget is exhausted
+pub const BUDGET_MSG: &str = "verif: instruction budget exhausted";
+
+/// Payload of the unwind raised when a hook observes an out-of-contract access
+#[derive(Debug, Clone)]
+pub struct Trap(pub String);
+
+#[derive(Clone, Copy, PartialEq, Debug)]
+enum Block {
+    Live,
+    Dead,
+}
+
+thread_local! {
+    static CAPTURE: RefCell<Option<String>> = const { RefCell::new(None) };
+    static BUDGET: Cell<u64> = const { Cell::new(u64::MAX) };
+    static TICKS: Cell<u64> = const { Cell::new(0) };
+    static EVENTS: RefCell<Vec<String>> = const { RefCell::new(Vec::new()) };
+    static HEAP_ON: Cell<bool> = const { Cell::new(false) };
+    static HEAP: RefCell<HashMap<usize, (Block, Layout)>> = RefCell::new(HashMap::new());
+    static BOUNDARIES: RefCell<Option<Vec<bool>>> = const { RefCell::new(None) };
+    static GC_OBSERVER: RefCell<Option<Box<dyn FnMut(GcEvent)>>> = RefCell::new(None);
+    static EXIT_OBSERVER: RefCell<Option<Box<dyn FnMut(&[Object], &[Object])>>> = RefCell::new(None);
+}
+
+/// Records the event and unwinds (unless the thread is already unwinding)
+pub fn trap(msg: String) {
+    EVENTS.with(|e| e.borrow_mut().push(msg.clone()));
+    if !std::thread::panicking() {
+        std::panic::panic_any(Trap(msg));
+    }
+}
+
+/// Takes (and clears) the list of events recorded on this thread
+pub fn take_events() -> Vec<String> {
+    EVENTS.with(|e| std::mem::take(&mut *e.borrow_mut()))
+}
+
+// ---------------------------------------------------------------------------------------
+// H1: print capture
+
+/// Start capturing everything `print` writes on this thread
+pub fn capture_start() {
+    CAPTURE.with(|c| *c.borrow_mut() = Some(String::new()));
+}
+
+/// Stop capturing and return what was written
+pub fn capture_take() -> String {
+    CAPTURE.with(|c| c.borrow_mut().take().unwrap_or_default())
+}
+
+pub fn emit(args: std::fmt::Arguments) {
+    CAPTURE.with(|c| {
+        let mut c = c.borrow_mut();
+        match c.as_mut() {
+            Some(buf) => {
+                use std::fmt::Write;
+                let _ = buf.write_fmt(args);
+            }
+            None => {
+                use std::io::Write;
+                let _ = std::io::stdout().write_fmt(args);
+            }
+        }
+    })
+}
+
+// ---------------------------------------------------------------------------------------
+// H2: instruction budget
+
+/// Sets the number of instructions the VM may execute on this thread (u64::MAX = unlimited) and resets the counter
+pub fn set_budget(n: u64) {
+    BUDGET.with(|b| b.set(n));
+    TICKS.with(|t| t.set(0));
+}
+
+/// Number of instructions executed since the last `set_budget`
+pub fn ticks() -> u64 {
+    TICKS.with(|t| t.get())
+}
+
+/// Called before every instruction; true when the budget is exhausted
+#[inline]
+pub fn tick() -> bool {
+    let n = TICKS.with(|t| t.get());
+    if n >= BUDGET.with(|b| b.get()) {
+        return true;
+    }
+    TICKS.with(|t| t.set(n + 1));
+    false
+}
+
+// ---------------------------------------------------------------------------------------
+// H3: VM probes
+
+/// Supplies the set of instruction boundaries of the code that is about to run (None = unknown)
+pub fn set_boundaries(b: Option<Vec<bool>>) {
+    BOUNDARIES.with(|x| *x.borrow_mut() = b);
+}
+
+#[inline]
+pub fn probe_pop(len: usize) {
+    if len == 0 {
+        trap("probe: pop on an empty stack".to_string());
+    }
+}
+
+#[inline]
+pub fn probe_fetch(ip: usize, code: &[u8], max_opcode: u8) {
+    if ip >= code.len() {
+        trap(format!("probe: opcode fetch at {ip} outside code of length {}", code.len()));
+        return;
+    }
+    if code[ip] > max_opcode {
+        trap(format!("probe: invalid opcode byte {} at {ip}", code[ip]));
+        return;
+    }
+    let off = BOUNDARIES.with(|b| match b.borrow().as_ref() {
+        Some(b) => !b.get(ip).copied().unwrap_or(false),
+        None => false,
+    });
+    if off {
+        trap(format!("probe: opcode fetch at {ip} is not on an instruction boundary"));
+    }
+}
+
+#[inline]
+pub fn probe_operand(ip: usize, width: usize, code: &[u8]) {
+    if ip + width > code.len() {
+        trap(format!("probe: operand fetch at {ip}+{width} outside code of length {}", code.len()));
+    }
+}
+
+#[inline]
+pub fn probe_call(stack_len: usize, num_args: usize) {
+    if stack_len < 1 + num_args {
+        trap(format!("probe: call with {num_args} arguments on a stack of {stack_len}"));
+    }
+}
+
+#[inline]
+pub fn probe_builtin(byte: u8, max: u8) {
+    if byte > max {
+        trap(format!("probe: invalid builtin number {byte}"));
+    }
+}
+
+// ---------------------------------------------------------------------------------------
+// H4: opcode table
+
+/// (byte, name, operand widths) of every opcode
+pub fn opcode_table() -> Vec<(u8, String, Vec<usize>)> {
+    crate::compiler::verif_opcode_table()
+}
+
+// ---------------------------------------------------------------------------------------
+// H5: shadow heap
+
+/// Switches the shadow heap on or off for this thread. While it is on, freed blocks are
+/// quarantined (never handed back to the allocator) until `heap_reset`.
+pub fn heap_enable(on: bool) {
+    HEAP_ON.with(|h| h.set(on));
+}
+
+pub fn on_alloc(ptr: *mut u8, layout: Layout) {
+    if HEAP_ON.with(|h| h.get()) {
+        HEAP.with(|h| h.borrow_mut().insert(ptr as usize, (Block::Live, layout)));
+    }
+}
+
+/// 0 = the shadow heap is off: free normally; 1 = the block was live: drop the contents but
+/// keep the box (quarantine); 2 = the block was not live (event recorded): touch nothing
+pub fn on_free(ptr: *mut u8) -> u8 {
+    if !HEAP_ON.with(|h| h.get()) {
+        return 0;
+    }
+    let state = HEAP.with(|h| {
+        let mut h = h.borrow_mut();
+        let state = h.get(&(ptr as usize)).map(|b| b.0);
+        if let Some(b) = h.get_mut(&(ptr as usize)) {
+            b.0 = Block::Dead;
+        }
+        state
+    });
+    match state {
+        Some(Block::Live) => 1,
+        Some(Block::Dead) => {
+            trap(format!("heap: double free of {ptr:p}"));
+            2
+        }
+        None => {
+            trap(format!("heap: free of unknown block {ptr:p}"));
+            2
+        }
+    }
+}
+
+pub fn on_deref(ptr: *mut u8) {
+    if !HEAP_ON.with(|h| h.get()) {
+        return;
+    }
+    let state = HEAP.with(|h| h.borrow().get(&(ptr as usize)).map(|b| b.0));
+    match state {
+        Some(Block::Live) => (),
+        Some(Block::Dead) => trap(format!("heap: use after free of {ptr:p}")),
+        None => trap(format!("heap: dereference of unknown block {ptr:p}")),
+    }
+}
+
+/// Is the block this object points to live? (None = not known to the shadow heap)
+pub fn heap_is_live(o: Object) -> Option<bool> {
+    HEAP.with(|h| h.borrow().get(&(o.as_ptr() as usize)).map(|b| b.0 == Block::Live))
+}
+
+/// Number of live blocks
+pub fn heap_live() -> usize {
+    HEAP.with(|h| h.borrow().values().filter(|b| b.0 == Block::Live).count())
+}
+
+/// Addresses of all live blocks
+pub fn heap_live_blocks() -> Vec<usize> {
+    let mut v: Vec<usize> = HEAP.with(|h| {
+        h.borrow()
+            .iter()
+            .filter(|(_, b)| b.0 == Block::Live)
+            .map(|(p, _)| *p)
+            .collect()
+    });
+    v.sort();
+    v
+}
+
+/// Total number of blocks seen since the last reset
+pub fn heap_total() -> usize {
+    HEAP.with(|h| h.borrow().len())
+}
+
+/// Forgets everything and releases the quarantine. Blocks that are still live are leaked.
+pub fn heap_reset() {
+    HEAP.with(|h| {
+        for (ptr, (state, layout)) in h.borrow_mut().drain() {
+            if state == Block::Dead {
+                unsafe { std::alloc::dealloc(ptr as *mut u8, layout) };
+            }
+        }
+    });
+}
+
+// ---------------------------------------------------------------------------------------
+// H6: collector observers
+
+pub enum GcEvent<'a> {
+    /// A cycle is about to start
+    RunStart {
+        roots: &'a [&'a [Object]],
+        managed: &'a [Object],
+    },
+    /// A cycle has ended
+    RunEnd {
+        roots: &'a [&'a [Object]],
+        managed: &'a [Object],
+    },
+    /// The collector has been destroyed; `managed` is what it still held afterwards
+    Destroyed { managed: &'a [Object] },
+}
+
+pub fn set_gc_observer(f: Option<Box<dyn FnMut(GcEvent)>>) {
+    GC_OBSERVER.with(|o| *o.borrow_mut() = f);
+}
+
+pub fn gc_event(ev: GcEvent) {
+    // take the observer out while it runs, so that it may itself use the collector
+    let f = GC_OBSERVER.with(|o| o.borrow_mut().take());
+    if let Some(mut f) = f {
+        f(ev);
+        GC_OBSERVER.with(|o| {
+            let mut o = o.borrow_mut();
+            if o.is_none() {
+                *o = Some(f);
+            }
+        });
+    }
+}
+
+// ---------------------------------------------------------------------------------------
+// H7: exit snapshot
+
+pub fn set_exit_observer(f: Option<Box<dyn FnMut(&[Object], &[Object])>>) {
+    EXIT_OBSERVER.with(|o| *o.borrow_mut() = f);
+}
+
+/// Called on every return path of `VM::run` with the globals and the operand stack
+pub fn on_exit(globals: &[Object], stack: &[Object]) {
+    let f = EXIT_OBSERVER.with(|o| o.borrow_mut().take());
+    if let Some(mut f) = f {
+        f(globals, stack);
+        EXIT_OBSERVER.with(|o| {
+            let mut o = o.borrow_mut();
+            if o.is_none() {
+                *o = Some(f);
+            }
+        });
+    }
+}
+
+// ---------------------------------------------------------------------------------------
+// H8: token dump
+
+/// Debug rendering of every token the lexer produces for `input`
+pub fn tokens(input: &str) -> Vec<String> {
+    crate::lexer::Tokenizer::new(input)
+        .map(|t| format!("{t:?}"))
+        .collect()
+}
